@@ -1425,6 +1425,7 @@ mod convert {
                     self.from_row.reset(self.from_program.header());
                     continue;
                 }
+                self.check_address()?;
                 if self.from_row.end_sequence() {
                     return Ok(Some(ConvertLineRow::EndSequence(self.from_row.address())));
                 }
@@ -1437,6 +1438,25 @@ mod convert {
                 }
             }
             Ok(None)
+        }
+
+        /// Check that the writer can express the address and op_index of the current row.
+        ///
+        /// Addresses that are not a multiple of the minimum instruction length (which
+        /// `DW_LNS_fixed_advance_pc` can produce) cannot be written as operation advances.
+        fn check_address(&self) -> ConvertResult<()> {
+            let line_encoding = self.program.line_encoding;
+            let min_len = u64::from(line_encoding.minimum_instruction_length);
+            let max_ops = u64::from(line_encoding.maximum_operations_per_instruction);
+            let address = self.from_row.address();
+            if min_len == 0 || address % min_len != 0 {
+                return Err(ConvertError::UnsupportedLineInstruction);
+            }
+            (address / min_len)
+                .checked_mul(max_ops)
+                .and_then(|ops| ops.checked_add(self.from_row.op_index()))
+                .ok_or(ConvertError::UnsupportedLineInstruction)?;
+            Ok(())
         }
 
         fn convert_row(&self) -> ConvertResult<LineRow> {
